@@ -13,6 +13,9 @@ generator it draws from, as classified by `harness/translate` from the current s
 * `global`    — `np.random.*` (the process-global generator)
 * `unseeded`  — a third-party estimator constructed without `random_state` (falls back to the
                 process-global generator)
+* `carried`   — the method's own generator is not (certainly) re-derived from the constructor
+                parameter in this call (`fit` keeping a `random_state_` of an earlier call): from the
+                point of view of the call its state is external, like the global generator's
 
 Generators are streams with a cursor; the values a method computes are an arbitrary function of the
 values it drew.
@@ -21,15 +24,17 @@ values it drew.
 namespace Ska.Rng
 
 inductive Src where
-  | own | derived | seededArg | global | unseeded
+  | own | derived | seededArg | global | unseeded | carried
   deriving DecidableEq, Repr
 
 def Src.usesGlobal : Src → Bool
   | .global => true
   | .unseeded => true
+  | .carried => true
   | _ => false
 
-/-- the decidable predicate: no draw site uses the process-global generator -/
+/-- the decidable predicate: no draw site uses a generator whose state is not determined by the
+constructor parameters and the call (process-global, or carried over from earlier calls) -/
 def NoGlobal (p : List Src) : Bool := p.all (fun s => !s.usesGlobal)
 
 abbrev Stream := Nat → Nat
@@ -47,6 +52,7 @@ def step (ownS argS globS : Stream) (c : Cur) : Src → Cur
   | .seededArg => { c with arg := c.arg + 1, drawn := argS c.arg :: c.drawn }
   | .global => { c with glob := c.glob + 1, drawn := globS c.glob :: c.drawn }
   | .unseeded => { c with glob := c.glob + 1, drawn := globS c.glob :: c.drawn }
+  | .carried => { c with glob := c.glob + 1, drawn := globS c.glob :: c.drawn }
 
 def run (ownS argS globS : Stream) : List Src → Cur → Cur
   | [], c => c
